@@ -8,7 +8,7 @@ from ..cfg import CFG
 from ..facts import Broken, span_loc
 from . import ops
 from .domain import (INT_TYPES, TBIT, BoolV, ClosureV, EnumV, FloatV, FnV, IntV, IterV, OpaqueV, RefV, StrV, StructV, Top,
-                     TupleV, VecV, bit_is_const, bit_xor, deps_of, fresh_sid, join, join_guard, ty_range)
+                     TupleV, VecV, bit_is_const, bit_mux, bit_xor, deps_of, fresh_sid, join, join_guard, ty_range)
 
 UNROLL_FUEL = 400
 STD_ENUMS = {
@@ -700,6 +700,8 @@ class Interp:
                     out.append(x)
                 elif x != TBIT and y != TBIT and bit_xor(x, y) == 1:
                     out.append(bit_xor(bit_xor(x, c), p))
+                elif bit_mux(c, p, x, y) is not None:
+                    out.append(bit_mux(c, p, x, y))
                 else:
                     out.append(TBIT)
                     lin = False
@@ -727,6 +729,9 @@ class Interp:
                 return va
             if x != TBIT and y != TBIT and bit_xor(x, y) == 1:
                 return BoolV(None, None, va.deps | vb.deps, None, bit_xor(bit_xor(x, c), p))
+            m = bit_mux(c, p, x, y)
+            if m is not None:
+                return BoolV(None if not bit_is_const(m) else bool(m), None, va.deps | vb.deps, None, m)
             return join(va, vb)
         if isinstance(va, VecV) and isinstance(vb, VecV) and va.elems is not None and vb.elems is not None and len(va.elems) == len(vb.elems):
             return VecV([self.gjoin(x, y, gj) for x, y in zip(va.elems, vb.elems)], elem_ty=va.elem_ty)
